@@ -105,8 +105,8 @@ def scan_trusted(text):
     return found, n_assume, n_admit
 
 
-def run_verus(vf, workdir, canary=None, rlimit=None, timeout=600, extra=None):
-    fname = os.path.join(workdir, vf.name + (f"_canary{canary}" if canary is not None else "") + ".rs")
+def run_verus(vf, workdir, canary=None, rlimit=None, timeout=600, extra=None, tag=""):
+    fname = os.path.join(workdir, vf.name + (f"_canary{canary}" if canary is not None else "") + tag + ".rs")
     text = vf.text(canary=canary)
     write(fname, text)
     cmd = ["verus", fname, "--output-json", "--time", "--error-format=json", "--multiple-errors", "50", "--triggers-mode", "silent"]
